@@ -70,7 +70,12 @@ rounded_udiv_128_by_48 (uint64_t  hi,
                         uint64_t *result_hi)
 {
     uint64_t tmp, remainder, result_lo;
-    assert(div < ((uint64_t)1 << 48));
+    /* The divisor may be as large as 2^48: rounded_sdiv_128_by_49 () passes the
+     * magnitude of a 49-bit signed divisor, and the most negative one is -2^48.
+     * Every remainder below is smaller than div, so (remainder << 16) plus 16
+     * more bits still fits 64 bits for div <= 2^48.
+     */
+    assert(div <= ((uint64_t)1 << 48));
 
     remainder = hi % div;
     *result_hi = hi / div;
